@@ -111,9 +111,10 @@ def norm_sigma(e, table):
     return rewrite(e)
 
 
-def lin_expand(e):
-    """Distribute the linear uninterpreted functions over sums and pull numeric
-    factors out: SIG, SIGA (first argument), CROSS (bilinear, antisymmetric:
+def lin_expand(e, table=None):
+    """Distribute the linear uninterpreted functions over sums and pull scalar
+    factors out (numbers; with a symbol table also every factor free of array
+    symbols): SIG, SIGA (first argument), CROSS (bilinear, antisymmetric:
     arguments are put in canonical order with the sign)."""
     if e is None:
         return None
@@ -121,7 +122,7 @@ def lin_expand(e):
     def split(t):
         c, rest = sp.Integer(1), sp.Integer(1)
         for f in (t.args if t.func == sp.Mul else (t,)):
-            if f.is_number:
+            if f.is_number or (table is not None and f.free_symbols and not has_array(f, table) and not f.atoms(sp.Function)):
                 c = c * f
             else:
                 rest = rest * f
@@ -325,7 +326,7 @@ def _equal(a, b, table):
         if any(f.func in (CROSS, SIGA) for f in atoms):
             # bilinear / linear normal form first: afterwards distinct cross products of atomic
             # vectors (arguments in canonical order) are independent of each other
-            num = sp.expand(lin_expand(num))
+            num = sp.expand(lin_expand(num, table))
             if num == 0:
                 return True
             atoms = num.atoms(sp.Function)
@@ -334,7 +335,8 @@ def _equal(a, b, table):
             if isinstance(f, (sp.exp, sp.sin, sp.cos, sp.tan)) or f.func == SIG or f.func == SUB or f.func.__name__.startswith("H_"):
                 return True
             if f.func == CROSS:
-                return all(a_.is_Symbol for a_ in f.args)
+                # arguments that are monomials of (array) symbols: scalar factors were pulled out by lin_expand
+                return all(a_.is_Symbol or (a_.func in (sp.Mul, sp.Pow) and not a_.atoms(sp.Function) and not any(x_.func == sp.Add for x_ in sp.preorder_traversal(a_))) for a_ in f.args)
             if f.func == MAXF:
                 # max and sum of one array are independent; maxima of differently scaled copies are not
                 return len({g_.args[0] for g_ in atoms if g_.func == MAXF}) == 1
